@@ -248,7 +248,7 @@ Lemma inherited_alias_public r ll c cn n o : r_is_class cn = true ->
   is_private n = false -> smem n (imports_of (elab_node r ll c cn)) = false ->
   is_public (elab_node r ll c cn) (mkNode n None (BAlias (TRes o))) = true.
 Proof.
-  intros Hc Hp Hi. unfold is_public. simpl. rewrite Hp, Hi.
+  intros Hc Hp Hi. rewrite is_public_matches_doc. unfold is_public_doc, listed_in_all, defines_all. simpl. rewrite Hp, Hi.
   unfold elab_body. unfold r_is_class in Hc. destruct (rbody_of cn); try discriminate. reflexivity.
 Qed.
 
@@ -448,3 +448,284 @@ Definition ex_c : rstore :=
        [("pkg", 0)].
 Example alias_outcomes : map (outcome ex_c) [1; 2; 4; 5; 6; 7] = [TRes 2; TRes 3; TCyc; TCyc; TUnres; TUnres].
 Proof. vm_compute. reflexivity. Qed.
+
+(* ======== the elaboration of a well-formed raw store is a well-formed store ======== *)
+Lemma nodup_keys_iff l : nodup_keys l = true <-> NoDup (map fst l).
+Proof.
+  induction l as [|[k v] l IH]; simpl.
+  - split; [constructor|reflexivity].
+  - rewrite andb_true_iff, negb_true_iff, IH. split.
+    + intros [E N]. constructor; [|exact N]. intros I. apply in_map_iff in I. destruct I as [[k' v'] [E1 I]]. simpl in E1. subst k'.
+      assert (X : existsb (fun kv : string * nat => (fst kv =? k)%string) l = true).
+      { apply existsb_exists. exists (k, v'). split; [exact I|simpl; apply String.eqb_refl]. }
+      rewrite X in E. discriminate.
+    + intros N. inversion N as [|? ? Hn Hd]; subst. split; [|exact Hd].
+      destruct (existsb (fun kv : string * nat => (fst kv =? k)%string) l) eqn:X; [|reflexivity].
+      exfalso. apply Hn. apply existsb_exists in X. destruct X as [[k' v'] [I E]]. simpl in E. apply String.eqb_eq in E. subst k'.
+      apply in_map_iff. exists (k, v'). split; [reflexivity|exact I].
+Qed.
+
+Lemma assign_keys_in {A} n (v : A) k : forall d, In k (map fst (C07_mro.assign n v d)) <-> k = n \/ In k (map fst d).
+Proof.
+  induction d as [|[k' w] d IH]; simpl.
+  - split; [intros [E|[]]; left; symmetry; exact E|intros [E|[]]; left; symmetry; exact E].
+  - destruct (String.eqb k' n) eqn:E; simpl.
+    + apply String.eqb_eq in E. subst k'. split; [intros [H|H]; [left; symmetry; exact H|right; right; exact H]|].
+      intros [H|[H|H]]; [left; symmetry; exact H|left; exact H|right; exact H].
+    + rewrite IH. split; [intros [H|[H|H]]; auto|intros [H|[H|H]]; auto].
+Qed.
+Lemma assign_nodup {A} n (v : A) : forall d, NoDup (map fst d) -> NoDup (map fst (C07_mro.assign n v d)).
+Proof.
+  induction d as [|[k' w] d IH]; simpl; intros N.
+  - constructor; [intros []|constructor].
+  - inversion N as [|? ? Hn Hd]; subst. destruct (String.eqb k' n) eqn:E; simpl.
+    + constructor; assumption.
+    + constructor; [|apply IH; exact Hd]. intros I. apply assign_keys_in in I. destruct I as [I|I].
+      * subst k'. rewrite String.eqb_refl in E. discriminate.
+      * apply Hn. exact I.
+Qed.
+Lemma add_base_nodup t c base : forall d, NoDup (map fst d) -> NoDup (map fst (C07_mro.add_base t c d base)).
+Proof.
+  unfold C07_mro.add_base. induction (C07_mro.cmembers (C07_mro.nth_cls t base)) as [|n ns IH]; intros d N; simpl; [exact N|].
+  apply IH. destruct (C07_mro.smem n (C07_mro.cmembers (C07_mro.nth_cls t c))); [exact N|apply assign_nodup; exact N].
+Qed.
+Lemma inherited_nodup t c : NoDup (map fst (C07_mro.inherited_members t c)).
+Proof.
+  unfold C07_mro.inherited_members. destruct (C07_mro.griffe_mro t c) as [m| |]; try constructor.
+  assert (G : forall l d, NoDup (map fst d) -> NoDup (map fst (fold_left (C07_mro.add_base t c) l d))).
+  { induction l as [|b l IH]; intros d N; simpl; [exact N|]. apply IH. apply add_base_nodup. exact N. }
+  apply G. constructor.
+Qed.
+
+Lemma pick_keys_sub r k : forall L, In k (map fst (flat_map (pick_member r) L)) -> In k (map fst L).
+Proof.
+  induction L as [|[k' a] L IH]; simpl; intros H; [exact H|].
+  rewrite map_app in H. apply in_app_or in H. destruct H as [H|H]; [|right; apply IH; exact H].
+  left. unfold pick_member in H. simpl in H. destruct (rget r (C07_mro.al_owner a)) as [kn|]; [|destruct H].
+  destruct (lookup k' (rmembers kn)); [|destruct H]. simpl in H. destruct H as [H|[]]. exact H.
+Qed.
+Lemma pick_nodup r : forall L, NoDup (map fst L) -> NoDup (map fst (flat_map (pick_member r) L)).
+Proof.
+  induction L as [|[k' a] L IH]; simpl; intros N; [constructor|].
+  inversion N as [|? ? Hn Hd]; subst. rewrite map_app.
+  unfold pick_member at 1. simpl. destruct (rget r (C07_mro.al_owner a)) as [kn|]; [|apply IH; exact Hd].
+  destruct (lookup k' (rmembers kn)); [|apply IH; exact Hd]. simpl. constructor; [|apply IH; exact Hd].
+  intros I. apply Hn. apply (pick_keys_sub r k' L I).
+Qed.
+
+Lemma number_keys : forall l base, map fst (number base l) = map fst l.
+Proof.
+  unfold number. induction l as [|[k v] l IH]; intros base; simpl; [reflexivity|]. rewrite IH. reflexivity.
+Qed.
+Lemma number_vals : forall l base kv, In kv (number base l) -> base <= snd kv < base + List.length l.
+Proof.
+  unfold number. induction l as [|[k v] l IH]; intros base kv H; simpl in H; [destruct H|].
+  destruct H as [H|H]; [subst kv; simpl; lia|]. apply IH in H. simpl. lia.
+Qed.
+
+Lemma lookup07_in {A} k : forall (L : list (string * A)), In k (map fst L) -> exists a, C07_mro.lookup k L = Some a.
+Proof.
+  induction L as [|[k' a] L IH]; simpl; intros H; [destruct H|].
+  destruct (String.eqb k' k) eqn:E; [eexists; reflexivity|]. destruct H as [H|H]; [subst; rewrite String.eqb_refl in E; discriminate|apply IH; exact H].
+Qed.
+
+(* an inherited name is never a declared one *)
+Lemma inh_raw_disjoint r c cn k : rclass_of r c cn -> In k (map fst (inh_raw r c)) -> lookup k (rmembers cn) = None.
+Proof.
+  intros Hc H. rewrite (inh_raw_eq r c cn Hc) in H. apply pick_keys_sub in H.
+  destruct (lookup07_in k _ H) as [a La]. destruct Hc as [H1 H2].
+  destruct (C07_mro.griffe_mro (to_tbl r) c) as [m|e|] eqn:M.
+  - rewrite (C07_mro.inherited_nearest_wins (to_tbl r) c m k M) in La. rewrite (declared_smem r c cn k H1) in La.
+    destruct (lookup k (rmembers cn)); [discriminate|reflexivity].
+  - rewrite (C07_mro.inherited_uncomputable_empty (to_tbl r) c e M) in La. discriminate.
+  - unfold C07_mro.inherited_members in La. rewrite M in La. discriminate.
+Qed.
+
+Lemma nodup_app_keys (a b : list (string * nat)) :
+  NoDup (map fst a) -> NoDup (map fst b) -> (forall k, In k (map fst a) -> ~ In k (map fst b)) -> NoDup (map fst (a ++ b)).
+Proof.
+  intros Na Nb D. rewrite map_app. induction a as [|[k v] a IH]; simpl; [exact Nb|].
+  inversion Na as [|? ? Hn Hd]; subst. constructor.
+  - intros I. apply in_app_or in I. destruct I as [I|I]; [apply Hn; exact I|apply (D k); [left; reflexivity|exact I]].
+  - apply IH; [exact Hd|]. intros k' I. apply D. right. exact I.
+Qed.
+Lemma lookup_none_notin k : forall ms, lookup k ms = None -> ~ In k (map fst ms).
+Proof.
+  induction ms as [|[k' v] ms IH]; simpl; intros H I; [exact I|].
+  destruct (String.eqb k' k) eqn:E; [discriminate|]. destruct I as [I|I]; [subst; rewrite String.eqb_refl in E; discriminate|exact (IH H I)].
+Qed.
+
+(* ---- indices stay in range ---- *)
+Lemma walk_from_lt g : (forall n, In n g -> forallb (fun nm => Nat.ltb (snd nm) (List.length g)) (rmembers n) = true) ->
+  forall parts cur t, cur < List.length g -> walk_from g cur parts = WOk t -> t < List.length g.
+Proof.
+  intros W. induction parts as [|p rest IH]; intros cur t Hc H; simpl in H; [inversion H; subst; exact Hc|].
+  destruct (nth_error g cur) as [n|] eqn:E; [|discriminate]. destruct (r_is_alias n); [discriminate|].
+  destruct (lookup p (rmembers n)) as [j|] eqn:L; [|discriminate].
+  apply (IH j t); [|exact H]. apply nth_error_In in E. specialize (W n E). rewrite forallb_forall in W.
+  apply lookup_in in L. specialize (W (p, j) L). simpl in W. apply Nat.ltb_lt. exact W.
+Qed.
+
+Lemma rwf_node r n : rwf r = true -> In n (rnodes r) ->
+  rids_ok r n = true /\ nodup_keys (rmembers n) = true /\ rsig_ok n = true /\ no_through r n = true.
+Proof.
+  unfold rwf. intros H I. apply andb_true_iff in H. destruct H as [H _]. rewrite forallb_forall in H. specialize (H n I).
+  repeat (apply andb_true_iff in H; destruct H as [H ?]). auto.
+Qed.
+
+Lemma walk_lt r parts t : rwf r = true -> walk r parts = WOk t -> t < List.length (rnodes r).
+Proof.
+  intros W H. unfold walk in H. destruct parts as [|top rest]; [discriminate|].
+  destruct (lookup top (rcoll r)) as [i|] eqn:L; [|discriminate].
+  apply (walk_from_lt (rnodes r)) with (parts := rest) (cur := i); [|  |exact H].
+  - intros n I. destruct (rwf_node r n W I) as [A _]. exact A.
+  - unfold rwf in W. apply andb_true_iff in W. destruct W as [_ W]. rewrite forallb_forall in W.
+    apply lookup_in in L. specialize (W (top, i) L). simpl in W. apply Nat.ltb_lt. exact W.
+Qed.
+
+Lemma chase_unfold r f passed i : chase r (S f) passed i =
+  match rget r i with
+  | None => TUnres
+  | Some n =>
+    match rtpath n with
+    | None => TUnres
+    | Some parts =>
+      match walk r parts with
+      | WKey | WThrough => TUnres
+      | WOk t =>
+        if nmem t (i :: passed) then TCyc
+        else match rget r t with
+             | None => TUnres
+             | Some tn => if r_is_alias tn then match chase r f (i :: passed) t with TRes _ => TRes t | e => e end else TRes t
+             end
+      end
+    end
+  end.
+Proof. reflexivity. Qed.
+
+Lemma chase_lt r : rwf r = true -> forall fuel passed i t, chase r fuel passed i = TRes t -> t < List.length (rnodes r).
+Proof.
+  intros W. induction fuel as [|f IH]; intros passed i t H; [discriminate|]. rewrite chase_unfold in H.
+  destruct (rget r i) as [n|]; [|discriminate]. destruct (rtpath n) as [p|]; [|discriminate].
+  destruct (walk r p) as [t0| |] eqn:Hw; try discriminate.
+  destruct (nmem t0 (i :: passed)); [discriminate|]. destruct (rget r t0) as [tn|]; [|discriminate].
+  destruct (r_is_alias tn).
+  - destruct (chase r f (i :: passed) t0); try discriminate. inversion H; subst. apply (walk_lt r p t W Hw).
+  - inversion H; subst. apply (walk_lt r p t W Hw).
+Qed.
+
+Lemma offset_bound ll c : c < List.length ll -> offset ll c + List.length (nth c ll []) <= List.length (List.concat ll).
+Proof.
+  intros Hc. rewrite (concat_split ll c Hc). rewrite !app_length. unfold offset. lia.
+Qed.
+
+Lemma elab_length r : List.length (elab r) = List.length (rnodes r) + List.length (List.concat (inhs r)).
+Proof. unfold elab. rewrite app_length, mapi_from_length, map_length. reflexivity. Qed.
+
+(* every (name, member) of an inherited list points at a raw node *)
+Lemma inh_raw_member_lt r c nm : rwf r = true -> In nm (inh_raw r c) -> snd nm < List.length (rnodes r).
+Proof.
+  intros W H. unfold inh_raw in H. destruct (rget r c) as [cn|]; [|destruct H]. destruct (r_is_class cn); [|destruct H].
+  apply in_flat_map in H. destruct H as [[k a] [_ H]]. simpl in H.
+  destruct (rget r (C07_mro.al_owner a)) as [kn|] eqn:E; [|destruct H].
+  destruct (lookup k (rmembers kn)) as [m|] eqn:L; [|destruct H]. destruct H as [H|[]]. subst nm. simpl.
+  unfold rget in E. apply nth_error_In in E. destruct (rwf_node r kn W E) as [A _]. unfold rids_ok in A.
+  rewrite forallb_forall in A. apply lookup_in in L. specialize (A (k, m) L). simpl in A. apply Nat.ltb_lt. exact A.
+Qed.
+
+Theorem elab_wf r : rwf r = true -> wf_store (elab r) = true.
+Proof.
+  intros W. unfold wf_store. apply forallb_forall. intros x Hx.
+  unfold elab in Hx. apply in_app_or in Hx. destruct Hx as [Hx|Hx].
+  - (* an elaborated raw node *)
+    apply In_nth_error in Hx. destruct Hx as [i Hi]. rewrite mapi_from_nth in Hi. simpl in Hi.
+    destruct (nth_error (rnodes r) i) as [n|] eqn:E; [|discriminate]. simpl in Hi. inversion Hi; subst x. clear Hi.
+    assert (Hlt : i < List.length (rnodes r)) by (apply nth_error_Some; rewrite E; discriminate).
+    destruct (rwf_node r n W (nth_error_In _ _ E)) as [A [B [C _]]].
+    assert (Hm : forall nm, In nm (rmembers n) -> snd nm < List.length (elab r)).
+    { intros nm I. unfold rids_ok in A. rewrite forallb_forall in A. specialize (A nm I). apply Nat.ltb_lt in A. rewrite elab_length. lia. }
+    apply andb_true_iff. split; [apply andb_true_iff; split|].
+    + (* ids_ok *)
+      unfold ids_ok. apply andb_true_iff. split.
+      * apply forallb_forall. intros nm I. apply Nat.ltb_lt.
+        unfold all_members, elab_node, elab_body in I. simpl in I. unfold rmembers in Hm.
+        destruct (rbody_of n) eqn:Bn; simpl in I; try (destruct I); try (apply Hm; exact I).
+        apply in_app_or in I. destruct I as [I|I]; [|apply Hm; exact I].
+        apply number_vals in I. rewrite elab_length.
+        assert (Ob := offset_bound (inhs r) i). rewrite inhs_length in Ob. specialize (Ob Hlt). lia.
+      * unfold elab_node, elab_body. simpl. destruct (rbody_of n) eqn:Bn; try reflexivity.
+        destruct (outcome r i) as [t| |] eqn:O; try reflexivity. apply Nat.ltb_lt.
+        unfold outcome in O. apply (chase_lt r W) in O. rewrite elab_length. lia.
+    + (* nodup_keys *)
+      apply nodup_keys_iff. unfold all_members, elab_node, elab_body. simpl. unfold rmembers in B.
+      destruct (rbody_of n) eqn:Bn; simpl; try (apply nodup_keys_iff; exact B); try constructor.
+      assert (Hc : rclass_of r i n) by (split; [exact E|unfold r_is_class; rewrite Bn; reflexivity]).
+      rewrite (inhs_nth r i Hlt). apply nodup_app_keys.
+      * rewrite number_keys. rewrite (inh_raw_eq r i n Hc). apply pick_nodup. apply inherited_nodup.
+      * apply nodup_keys_iff. exact B.
+      * intros k I. rewrite number_keys in I. apply lookup_none_notin.
+        assert (D := inh_raw_disjoint r i n k Hc I). unfold rmembers in D. rewrite Bn in D. exact D.
+    + (* sig_ok *)
+      unfold sig_ok, elab_node, elab_body. simpl. unfold rsig_ok in C. destruct (rbody_of n); try reflexivity. exact C.
+  - (* a fresh inherited alias *)
+    apply in_map_iff in Hx. destruct Hx as [nm [Ex I]]. subst x.
+    apply in_concat in I. destruct I as [l [Il I]]. unfold inhs in Il. apply in_map_iff in Il. destruct Il as [c [El _]]. subst l.
+    assert (L := inh_raw_member_lt r c nm W I).
+    unfold inh_node, ids_ok, sig_ok. simpl. apply andb_true_iff. split; [|reflexivity]. rewrite andb_true_r.
+    apply Nat.ltb_lt. rewrite elab_length. lia.
+Qed.
+
+(* the whole pipeline -- elaboration of both versions, then the comparison -- completes on well-formed raw stores, whatever
+   the alias target paths are (missing names, cycles, chains): nothing is raised, nothing loops *)
+Theorem elab_comparison_total ro rn : rwf ro = true -> rwf rn = true ->
+  forall ri rj, ri < List.length (rnodes ro) -> rj < List.length (rnodes rn) ->
+  exists s l, fbc (elab ro) (elab rn) (default_fuel (elab ro) (elab rn)) ri rj = Ok s l.
+Proof.
+  intros Wo Wn ri rj Hi Hj. apply fbc_total; try (apply elab_wf; assumption).
+  - rewrite elab_length. lia.
+  - rewrite elab_length. lia.
+  - unfold default_fuel. lia.
+Qed.
+
+(* a package compared with an identical copy of itself reports nothing: also with the targets and inherited views computed here *)
+Theorem elab_self_silent r : rwf r = true -> forall fuel ri s l, fbc (elab r) (elab r) fuel ri ri = Ok s l -> breakages (elab r) (elab r) l = [].
+Proof. intros W fuel ri s l H. apply (self_silent (elab r) (elab_wf r W) fuel ri s l H). Qed.
+
+(* ======== Alias.target: the chain walk never runs out of fuel ======== *)
+Lemma nodup_bounded l n : NoDup l -> (forall x, In x l -> x < n) -> List.length l <= n.
+Proof.
+  intros N H. rewrite <- (seq_length n 0). apply NoDup_incl_length; [exact N|].
+  intros x I. apply in_seq. specialize (H x I). lia.
+Qed.
+Lemma nmem_false_notin t l : nmem t l = false -> ~ In t l.
+Proof.
+  unfold nmem. intros H I. assert (X : existsb (Nat.eqb t) l = true) by (apply existsb_exists; exists t; split; [exact I|apply Nat.eqb_refl]).
+  rewrite X in H. discriminate.
+Qed.
+
+Lemma chase_stable r : forall f1 f2 passed i,
+  NoDup (i :: passed) -> (forall x, In x (i :: passed) -> x < List.length (rnodes r)) ->
+  List.length (rnodes r) - List.length (i :: passed) < f1 -> List.length (rnodes r) - List.length (i :: passed) < f2 ->
+  chase r f1 passed i = chase r f2 passed i.
+Proof.
+  induction f1 as [|f1 IH]; intros f2 passed i Nd Rg H1 H2; [lia|]. destruct f2 as [|f2]; [lia|].
+  rewrite !chase_unfold. destruct (rget r i) as [n|]; [|reflexivity]. destruct (rtpath n) as [p|]; [|reflexivity].
+  destruct (walk r p) as [t| |]; try reflexivity.
+  destruct (nmem t (i :: passed)) eqn:M; [reflexivity|]. destruct (rget r t) as [tn|] eqn:Rt; [|reflexivity].
+  destruct (r_is_alias tn); [|reflexivity].
+  assert (Nd' : NoDup (t :: i :: passed)) by (constructor; [apply nmem_false_notin; exact M|exact Nd]).
+  assert (Rg' : forall x, In x (t :: i :: passed) -> x < List.length (rnodes r)).
+  { intros x [E|I]; [subst x; apply (rget_lt r t tn Rt)|apply Rg; exact I]. }
+  assert (B := nodup_bounded (t :: i :: passed) (List.length (rnodes r)) Nd' Rg').
+  rewrite (IH f2 (i :: passed) t Nd' Rg'); [reflexivity| |]; simpl in *; lia.
+Qed.
+
+(* whatever fuel above the number of nodes is passed, Alias.target's outcome is the same: the TCyc answered at fuel 0 is never seen *)
+Theorem outcome_fuel_irrelevant r i f : List.length (rnodes r) < f -> chase r f [] i = outcome r i.
+Proof.
+  intros H. unfold outcome, chase_fuel. destruct (rget r i) as [n|] eqn:E.
+  - apply chase_stable; simpl; try lia.
+    + constructor; [intros []|constructor].
+    + intros x [X|[]]. subst x. apply (rget_lt r i n E).
+  - destruct f as [|f]; [lia|]. rewrite !chase_unfold, E. reflexivity.
+Qed.
